@@ -15,14 +15,14 @@ CLAIMS = {
     'C03': ('proof', 'Every arithmetic operator of Spline (scalar *, /, unary -, their in-place forms, cross-order assignment, product, sum, +=, -=, binary -) is under a contract that fixes support and every coefficient of the result on the arbitrary interval gj (Cauchy product, zero-padded sum, zero in gaps), for all operand placements and an unbounded number of intervals (loop contracts). Orders 0..2 quick, 0..3 thorough. linearCombination (collection and iterator overloads) is covered by a BOUNDED stand-in only (at most 3 splines on grids of at most 3 points for refusals, validity and support; at most 2 splines on one interval for the coefficient values), reported under bounded_standins and never counted as proved.', '4 C03'),
     'C04': ('proof', 'Derivative<n>, Position<n>, Identity transforms (n = 0..4, sizes 1..4) against coefficient-wise and EVAL-form specifications printed from the mathematics; faculty/facultyRatio/binomialCoefficient as value tables; transformSpline and operator*(O,S) with loop contracts (same support, per-interval transform, absolute index passed on).', '4 C04'),
     'C05': ('proof', 'Constructor-wise over ABSTRACT child operators (uninterpreted functions): OperatorProduct, OperatorSum (+/-), ScalarMultiplication transforms, the scalar factory overloads, SplineOperator (grid guard, Cauchy product inside the factor support, zero outside), plus the concrete expression trees the generator uses. All expression trees follow by structural induction (meta-argument). The integer-divisor overload of operator/ is a recorded known finding.', '4 C05'),
-    'C06': ('proof', 'The per-interval kernel equals the exact integral for all size pairs up to 4x4 (5x3 for abstract operators); BilinearForm::evaluate: grid guard, and every call of the two (abstract) operators is made with the operand\'s own piece, grid and absolute interval index (table rendering, checked preconditions). The accumulation identity (result = sum over the common intervals of the per-interval integrals of (O1 a)(O2 b), 0 without a common interval) is proved for every number of intervals by a loop contract: the prefix-sum definition of the ghost sums is used through one substitution instance per iteration (no quantifier reaches the solver, the per-interval integral is an opaque function, so only congruence is needed); operator() is evaluate in this argument order.', '4 C06'),
-    'C07': ('proof', 'LinearForm kernels (sizes 1..6) equal the exact integral; LinearForm::evaluate with an abstract operator returns the prefix sum of the per-interval integrals over exactly the intervals of the support (quantified prefix-sum axiom, unbounded number of intervals), 0 for an interval-free spline. For the second sentence (agreement with the bilinear form) only the bilinear side is in the closure: BilinearForm::evaluate hands each operator the operand\'s own piece, grid and ABSOLUTE interval index and sums the per-interval integrals (the summation bounded, see C06); the lemma that this sum is the linear form of the product spline is not proved.', '4 C07'),
+    'C06': ('proof', 'The per-interval kernel equals the exact integral for all size pairs up to 4x4 (5x3 for abstract operators); BilinearForm::evaluate: grid guard, and every call of the two (abstract) operators is made with the operand\'s own piece, grid and absolute interval index (table rendering, checked preconditions). The accumulation identity (result = sum over the common intervals of the per-interval integrals of (O1 a)(O2 b), 0 without a common interval) is proved for every number of intervals by a loop contract: the prefix-sum definition of the ghost sums is used through one substitution instance per iteration (no quantifier reaches the solver, the per-interval integral is an opaque function, so only congruence is needed); operator() is evaluate in this argument order. The consequences named in the statement hold per interval as lemmas over the integral specification (symmetric under swapping the two polynomials; additive and homogeneous in the first polynomial; sizes up to 4x4).', '4 C06'),
+    'C07': ('proof', 'LinearForm kernels (sizes 1..6) equal the exact integral; LinearForm::evaluate with an abstract operator returns the sum of the per-interval integrals over exactly the intervals of the support (loop contract, every number of intervals; the prefix-sum definition is used through one instance per iteration), 0 for an interval-free spline. Second sentence (agreement with the bilinear form), proved as its parts: BilinearForm::evaluate hands each operator the operand\'s own piece, grid and ABSOLUTE interval index and returns the sum over the common intervals of INT2(piece of O1 a, piece of O2 b) (unbounded, see C06); per interval INT2(p, q, h) = INT1(Cauchy product of p and q, h) (lemma L07_int2_is_int1_of_product, sizes up to 4x4), the Cauchy product being exactly what Spline::operator* stores on the common intervals (C03) and transformSpline storing exactly the operator\'s output per interval (C04); sequences with equal terms have equal sums (lemma L07_equal_terms_equal_sums, induction by loop contract). The composition of these parts into the one sentence is a three-line argument outside the verifier, not an obligation.', '4 C07'),
     'C08': ('proof', 'Every entry point under contract that takes two splines or a spline factor carries the clause "grids logically different => DIFFERING_GRIDS" (calcUnion, calcIntersection, +, -, *, +=, -=, BilinearForm::evaluate, SplineOperator::transform), in-place forms additionally "target unchanged". Logical equality is a ghost relation, so distinct objects with equal points are the same grid by construction. linearCombination has the clause only in a BOUNDED stand-in (at most 3 splines); integrate() is not under contract.', '4 C08'),
     'C10': ('proof', 'grid_valid / support_valid / spline_valid are required and ensured by the contracts of constructors, moves (moved-from objects are valid and interval-free), assignments, arithmetic and operator application, including the exceptional exits; every history follows by induction over its length (encapsulation is a meta-argument). Aliasing cases (self-move, self-assignment) are not modelled.', '4 C10'),
     'C11': ('proof', 'Witness-style iff contracts for the Grid constructors (exact and IEEE semantics, so NaN is covered; "valid input is never refused" with a quantified hypothesis), Support and Spline constructors / setData / checkValidity. Generator: too few knots, decreasing knots, knots missing from a supplied grid are refused and the smallest admissible vectors accepted. linearCombination: BOUNDED stand-in (size mismatch, no data, differing grids refused; everything else accepted, at most 3 splines). interpolate<order 1..3> over an abstract solver: count mismatch, fewer than two points, a boundary derivative order outside 1..order are refused with the documented codes, everything else is accepted (loop contracts, any number of nodes).', '4 C11'),
     'C13': ('proof', 'Every Support/Grid index function is under a whole-result contract (64-bit machine arithmetic, wrap-around included) discharged for all grids, windows and all 2^64 index values; the algebraic laws (commutative, associative, idempotent, smallest hull, inverse conversions, consistent views, equality laws) are lemmas proved from those contracts only. Stronger than the statement\'s "grids up to a size bound".', '4 C13'),
     'C14': ('proof', 'Frame conditions: every non-mutating operation has an assigns clause listing at most the exception flag (dfcc checks every write), in-place operators ensure "threw => target unchanged", setData validates before overwriting, the ghost heap of grid vectors is only written by allocation of a fresh slot (frame clause of the Grid constructor). Storage sharing between splines cannot be expressed (by-value extraction).', '4 C14'),
-    'C15': ('proof', 'isZero (both directions, the converse with a quantified hypothesis), checkOverlap (true iff the windows share an interval, for logically equal grids), Spline/Support/Grid equality and inequality in witness form; reflexive/symmetric/transitive/copy laws as lemmas.', '4 C15'),
+    'C15': ('proof', 'isZero (both directions, the converse with a quantified hypothesis), tied to the wording "evaluates to zero everywhere" by two lemmas per order 0..3: all coefficients zero => value zero at every point; a polynomial that vanishes at order+1 distinct points of an interval of positive width has only zero coefficients (so a non-zero coefficient gives a non-zero value somewhere). checkOverlap (true iff the windows share an interval, for logically equal grids), Spline/Support/Grid equality and inequality in witness form; reflexive/symmetric/transitive/copy laws as lemmas.', '4 C15'),
     'C19': ('other', 'A contract on the type parameter: an archetype scalar offering only the documented operations (explicit integral constructor, four arithmetic operators with compound forms, unary minus, six comparisons, no implicit conversions) instantiates every core template and generic interpolate, calling every public operation; decided by the C++ type checker of clang and gcc. Type checking, not CBMC, and labelled so.', '4 C19'),
     'C01': ('proof', 'The induction that makes the generated functions the Cox-de Boor B-splines, piece by piece: (base) the constructor establishes the class invariant "grid = knots without duplicates" at the arbitrary knot index (assumed contract of std::unique) and refuses decreasing knots; the order-0 functions are the indicators of [t_l, t_l+1) (interval-free for zero-width spans); (step) applyRecursionRelation<k>, k = 2, 3, returns exactly [t_i+p > t_i] (x - t_i)/(t_i+p - t_i) s_i + [t_i+p+1 > t_i+1] (t_i+p+1 - x)/(t_i+p+1 - t_i+1) s_i+1 on every interval, proved from the contracts of the real operator expression tree; (order recursion) generateBSplines<0> and generateBSplines<1> for every knot vector: refusal of too few knots, count m-p-1, every element a valid spline on the generator\'s grid, and element l IS B_{l,p}: its value at the arbitrary point of the arbitrary grid interval equals the Cox-de Boor value (loop contract whose invariant says that element l is one recursion step of elements l, l+1 of the next lower order; the loop step is proved in two exhaustive cases i == l / i != l). NOT proved: generateBSplines<p> for p >= 2 (same contract template, goto-instrument 6.11 aborts while applying the loop contract), so orders >= 2 rest on the step contract plus the induction over p as a meta-argument; the corollaries (partition of unity, smoothness: classical consequences of the recursion).', '4 C01'),
     'C09': ('proof', 'Not separate contracts but the safety obligations of EVERY block of every other check: array bounds, the STL preconditions asserted by the shim (vector[] / front / back / iterator range, optional dereference, shared_ptr dereference), unsigned-to-signed conversions, signed overflow, division by zero, plus "throws for every index outside the view" for the checked accessors over all 2^64 index values. A read of uninitialised coefficients makes a whole-result postcondition fail. Dangling references, allocation failure, Eigen/boost code integrate() and the bundled Eigen/Armadillo adapters are not covered; linearCombination only in its bounded stand-in; interpolate over an abstract solver, including that every write to the linear system lies inside it.', '4 C09'),
